@@ -61,7 +61,11 @@ pub fn load<'a>(ctx: &mut Ctx, g: &'a Guarded) -> Option<Multiboot2Header<'a>> {
                 format!(
                     "VAL magic={} arch={} length={} checksum={} verify={}",
                     h.header_magic(),
-                    raw32(g.ptr, 4),
+                    // read through the accessor when the stored word is a declared architecture
+                    match raw32(g.ptr, 4) {
+                        0 | 4 => h.arch() as u32,
+                        x => x,
+                    },
                     h.length(),
                     h.checksum(),
                     verify
@@ -92,9 +96,24 @@ pub fn walk(ctx: &mut Ctx, g: &Guarded, h: &Multiboot2Header) {
 /// `typ= flags= size=` of a typed header tag, read as raw bytes; enum-typed
 /// fields are printed `VAL n` when the stored value is a declared discriminant
 /// and `UB` otherwise (the field is then NOT read through its Rust type).
-fn common(p: *const u8) -> String {
-    let e = |v: u32, hi: u32| if v <= hi { format!("VAL {}", v) } else { "UB".to_string() };
-    format!("typ={} flags={} size={}", e(raw16(p, 0) as u32, 10), e(raw16(p, 2) as u32, 1), raw32(p, 4))
+/// When the stored value is a declared discriminant the field IS read through the tag's accessor.
+macro_rules! common {
+    ($t:expr) => {{
+        let p = raw($t);
+        let (rt, rf) = (raw16(p, 0) as u32, raw16(p, 2) as u32);
+        let typ = if rt <= 10 { format!("VAL {}", $t.typ() as u32) } else { "UB".to_string() };
+        let flags = if rf <= 1 { format!("VAL {}", $t.flags() as u32) } else { "UB".to_string() };
+        format!("typ={} flags={} size={}", typ, flags, $t.size())
+    }};
+}
+
+/// an enum-typed field: read through `acc` when the stored value `v` is a declared discriminant, `UB` otherwise
+fn en_acc(v: u32, hi: u32, acc: impl FnOnce() -> u32) -> String {
+    if v <= hi {
+        format!("VAL {}", acc())
+    } else {
+        "UB".to_string()
+    }
 }
 
 fn get_line<T: ?Sized>(ctx: &mut Ctx, g: &Guarded, name: &str, r: Result<Option<&T>, ()>) -> Option<*const u8> {
@@ -114,14 +133,6 @@ fn get_line<T: ?Sized>(ctx: &mut Ctx, g: &Guarded, name: &str, r: Result<Option<
     }
 }
 
-fn en(v: u32, hi: u32) -> String {
-    if v <= hi {
-        format!("VAL {}", v)
-    } else {
-        "UB".to_string()
-    }
-}
-
 fn raw<T: ?Sized>(t: &T) -> *const u8 {
     t as *const T as *const u8
 }
@@ -129,7 +140,7 @@ fn raw<T: ?Sized>(t: &T) -> *const u8 {
 // ---- one line per header tag kind (the accessors of a typed tag) -----------------
 
 pub fn hk_end(ctx: &mut Ctx, t: &EndHeaderTag) {
-    ctx.ln("end_tag", common(raw(t)));
+    ctx.ln("end_tag", common!(t));
 }
 
 pub fn hk_information_request(ctx: &mut Ctx, g: &Guarded, t: &InformationRequestHeaderTag) {
@@ -139,7 +150,7 @@ pub fn hk_information_request(ctx: &mut Ctx, g: &Guarded, t: &InformationRequest
         "information_request_tag",
         format!(
             "{} requests=@{}+{} [{}]",
-            common(raw(t)),
+            common!(t),
             g.off(reqs.as_ptr()),
             core::mem::size_of_val(reqs),
             list.join(",")
@@ -152,7 +163,7 @@ pub fn hk_address(ctx: &mut Ctx, t: &AddressHeaderTag) {
         "address_tag",
         format!(
             "{} header_addr={} load_addr={} load_end_addr={} bss_end_addr={}",
-            common(raw(t)),
+            common!(t),
             t.header_addr(),
             t.load_addr(),
             t.load_end_addr(),
@@ -162,35 +173,38 @@ pub fn hk_address(ctx: &mut Ctx, t: &AddressHeaderTag) {
 }
 
 pub fn hk_entry_address(ctx: &mut Ctx, t: &EntryAddressHeaderTag) {
-    ctx.ln("entry_address_tag", format!("{} entry_addr={}", common(raw(t)), t.entry_addr()));
+    ctx.ln("entry_address_tag", format!("{} entry_addr={}", common!(t), t.entry_addr()));
 }
 
 pub fn hk_entry_address_efi32(ctx: &mut Ctx, t: &EntryEfi32HeaderTag) {
-    ctx.ln("entry_address_efi32_tag", format!("{} entry_addr={}", common(raw(t)), t.entry_addr()));
+    ctx.ln("entry_address_efi32_tag", format!("{} entry_addr={}", common!(t), t.entry_addr()));
 }
 
 pub fn hk_entry_address_efi64(ctx: &mut Ctx, t: &EntryEfi64HeaderTag) {
-    ctx.ln("entry_address_efi64_tag", format!("{} entry_addr={}", common(raw(t)), t.entry_addr()));
+    ctx.ln("entry_address_efi64_tag", format!("{} entry_addr={}", common!(t), t.entry_addr()));
 }
 
 pub fn hk_console_flags(ctx: &mut Ctx, t: &ConsoleHeaderTag) {
     let p = raw(t);
-    ctx.ln("console_flags_tag", format!("{} console_flags={}", common(p), en(raw32(p, 8), 1)));
+    ctx.ln(
+        "console_flags_tag",
+        format!("{} console_flags={}", common!(t), en_acc(raw32(p, 8), 1, || t.console_flags() as u32)),
+    );
 }
 
 pub fn hk_framebuffer(ctx: &mut Ctx, t: &FramebufferHeaderTag) {
     ctx.ln(
         "framebuffer_tag",
-        format!("{} width={} height={} depth={}", common(raw(t)), t.width(), t.height(), t.depth()),
+        format!("{} width={} height={} depth={}", common!(t), t.width(), t.height(), t.depth()),
     );
 }
 
 pub fn hk_module_align(ctx: &mut Ctx, t: &ModuleAlignHeaderTag) {
-    ctx.ln("module_align_tag", common(raw(t)));
+    ctx.ln("module_align_tag", common!(t));
 }
 
 pub fn hk_efi_boot_services(ctx: &mut Ctx, t: &EfiBootServiceHeaderTag) {
-    ctx.ln("efi_boot_services_tag", common(raw(t)));
+    ctx.ln("efi_boot_services_tag", common!(t));
 }
 
 pub fn hk_relocatable(ctx: &mut Ctx, t: &RelocatableHeaderTag) {
@@ -199,11 +213,11 @@ pub fn hk_relocatable(ctx: &mut Ctx, t: &RelocatableHeaderTag) {
         "relocatable_tag",
         format!(
             "{} min_addr={} max_addr={} align={} preference={}",
-            common(p),
+            common!(t),
             t.min_addr(),
             t.max_addr(),
             t.align(),
-            en(raw32(p, 20), 2)
+            en_acc(raw32(p, 20), 2, || t.preference() as u32)
         ),
     );
 }
